@@ -29,6 +29,8 @@ CLAIMS = {
          "every Result of lenders, store and rewinds in build_loop/try_seed is propagated; fatal errors are returned unchanged; duplicate retries are bounded by counters; both lenders are rewound on every path to the next attempt (no continue); par_solve returns Ok only when no worker reported an error. Termination of the probabilistic retry is not decided."),
  "C20": ("must-pass-through flow rule (seek before Ok) and structural rules for the line reader", "5 C20",
          "rewind() of every Seek-based lender seeks to the start on every Ok path and rebuilds its decoder afterwards; FromIntoIterator restarts from a pristine clone; the shared reader strips exactly LF then CR, maps EOF/errors, and all line lenders use it; Take::rewind is a known finding."),
+ "C16": ("symbolic evaluation of the ShardEdge methods and edge helpers + segment-domain argument + bit-slice agreement", "5 C16",
+         "for every impl of ShardEdge: edge(sig) equals local_edge(local_sig(sig)) plus shard(sig)*num_vertices(); the local vertices lie in three consecutive segment windows of the (l+2)*2^s (or 3*seg) cells, hence are distinct and in range; sort_key < num_sort_keys; shard() and Sig::high_bits take the same top bits; set_up_graphs asserts the Vertex bound. The float formulas for s and l are not decided."),
  "C12": ("unsafe-site census with guard dominance and a table of construction invariants", "5 C12",
          "every unsafe call in a safe function is discharged by dominating facts or rests on a tabled construction invariant; unchecked-precondition functions are unsafe fn; iterator start protocol; universe guard. The construction invariants themselves are assumptions."),
 }
